@@ -114,6 +114,18 @@ func (i *int64InternalNode) count() int { return len(i.runts) }
 
 func (i *int64InternalNode) deleteKey(minSize int, key int64) bool {
 	index := int64SearchLessThanOrEqualTo(key, i.runts)
+
+	var leftSibling, rightSibling int64Node
+	var leftCount, rightCount int
+
+	if index > 0 {
+		// Lock the left sibling before the child, so siblings are always locked
+		// from left to right, the same direction cursors walk the leaves.
+		leftSibling = i.children[index-1]
+		leftSibling.lock()
+		defer leftSibling.unlock()
+	}
+
 	child := i.children[index]
 	child.lock()
 	defer child.unlock()
@@ -122,9 +134,6 @@ func (i *int64InternalNode) deleteKey(minSize int, key int64) bool {
 		return false
 	}
 	// POST: child is too small
-
-	var leftSibling, rightSibling int64Node
-	var leftCount, rightCount int
 
 	if index < len(i.runts)-1 {
 		// try right sibling first to encourage left leaning trees
@@ -141,9 +150,6 @@ func (i *int64InternalNode) deleteKey(minSize int, key int64) bool {
 
 	if index > 0 {
 		// try left sibling
-		leftSibling = i.children[index-1]
-		leftSibling.lock()
-		defer leftSibling.unlock()
 		if leftCount = leftSibling.count(); leftCount > minSize {
 			child.adoptFromLeft(leftSibling)
 			i.runts[index] = child.smallest()
